@@ -386,7 +386,8 @@ class HydrodynamicsTemplateModel:
         event.terminal = shockWave
         sol = solve_ivp(
             self._dxiAndWdv, (v0, 1e-10), [vw, wp],
-            events=event, rtol=self.rtol/10, atol=0, args=(shockWave,)
+            events=event, rtol=self.rtol/10, atol=0, args=(shockWave,),
+            dense_output=True,
         )
         return sol
 
@@ -716,9 +717,18 @@ class HydrodynamicsTemplateModel:
         # If deflagration or hybrid, computes the shock wave contribution
         if vw < self.vJ:
             solShock = self.integratePlasma(boostVelocity(vw, vp), vw, wp)
-            vPlasma = solShock.t
-            xi = solShock.y[0]
-            enthalpy = solShock.y[1]
+            # The solver's own steps are too sparse for Simpson's rule: refine every
+            # step with the dense output (keeps the adaptive node distribution)
+            vPlasma = np.append(
+                np.concatenate(
+                    [
+                        np.linspace(a, b, 20, endpoint=False)
+                        for a, b in zip(solShock.t[:-1], solShock.t[1:])
+                    ]
+                ),
+                solShock.t[-1],
+            )
+            xi, enthalpy = solShock.sol(vPlasma)
 
             # Integrate the solution to get kappa
             kappaSW = 4 * simpson(
@@ -729,9 +739,17 @@ class HydrodynamicsTemplateModel:
         # If hybrid or detonation, computes the rarefaction wave contribution
         if vw > self.cb:
             solRarefaction = self.integratePlasma(boostVelocity(vw, vm), vw, wm, False)
-            vPlasma = solRarefaction.t
-            xi = solRarefaction.y[0]
-            enthalpy = solRarefaction.y[1]
+            # Refine every step (xi(v) has a vanishing derivative at the Jouguet point)
+            vPlasma = np.append(
+                np.concatenate(
+                    [
+                        np.linspace(a, b, 20, endpoint=False)
+                        for a, b in zip(solRarefaction.t[:-1], solRarefaction.t[1:])
+                    ]
+                ),
+                solRarefaction.t[-1],
+            )
+            xi, enthalpy = solRarefaction.sol(vPlasma)
 
             # Integrate the solution to get kappa
             kappaRW = -4 * simpson(
